@@ -22,6 +22,9 @@ structure Scn where
   cm : Option String := none
   blob : Option String := none
   n : Option Int := none
+  place : Option String := none
+  expr : Option Json := none
+  imgs : Option Json := none
   deriving FromJson
 
 partial def toJVal : Json → JVal
@@ -43,6 +46,43 @@ def toFields (j : Option Json) : List (String × JVal) :=
   match toObj j with
   | .obj kvs => kvs
   | _ => []
+
+/-- `verifc19.CelExpr` (omitted `b` = false). -/
+partial def toCel (j : Json) : Option CelExpr :=
+  match (j.getObjValAs? String "k").toOption with
+  | some "lit" => some (.lit ((j.getObjValAs? Bool "b").toOption.getD false))
+  | some "get" =>
+    match (j.getObjValAs? (List String) "p").toOption with
+    | some (r :: p) => some (.get (r :: p))
+    | _ => none
+  | some "not" => do
+    let e ← (j.getObjVal? "e").toOption
+    return .not (← toCel e)
+  | some "tern" => do
+    let c ← (j.getObjVal? "c").toOption
+    let x ← (j.getObjVal? "x").toOption
+    let y ← (j.getObjVal? "y").toOption
+    return .tern (← toCel c) (← toCel x) (← toCel y)
+  | _ => none
+
+/-- The CEL variables as `celctx.unpackContext` builds them from the harness's render context
+(JSON round trip of `PackageRenderContext`): a nil map / absent optional struct is `null` / absent. -/
+def celCtx (s : Scn) : JVal :=
+  let cfg := match s.cfg.map toJVal with
+    | some (.obj kvs) => JVal.obj kvs
+    | _ => .null
+  let imgs := match s.imgs.map toJVal with
+    | some (.obj kvs) => JVal.obj kvs
+    | _ => .null
+  let os := match s.n with
+    | some n => n % 2 == 1
+    | none => false
+  .obj [("package", .obj [("metadata", .obj [("name", .str "p"), ("namespace", .str "ns"), ("labels", .null),
+                                               ("annotations", .null)]),
+                          ("image", .str "quay.io/x/y:v1")]),
+        ("config", cfg), ("images", imgs),
+        ("environment", .obj ([("kubernetes", .obj [("version", .str "1.25")])] ++
+          (if os then [("openShift", .obj [("version", .str "4.14")])] else [])))]
 
 def name (s : String) : String := if s.isEmpty then "%e" else s
 
@@ -98,7 +138,14 @@ def modelOut (s : Scn) : Out :=
         if ps.isEmpty then "-"
         else ";".intercalate (ps.map fun p => name p.1 ++ "[" ++ ",".intercalate (p.2.map toString) ++ "]"))
       (renderPackage (s.phases.getD []) ((s.objs.getD []).map fun j => getAnnotations (toObj (some j))))
-  | "copySourceItemX" | "relaxedX" | "renderX" | "structureX" | "importX" | "probeX" => .nopanic
+  | "cel" =>
+    match s.place, s.expr.bind toCel with
+    | some place, some e =>
+      if place == "ann" || place == "cond" || place == "path" then
+        ofOutcome toString (celPlace place (celCtx s) e)
+      else .bad "place"
+    | _, _ => .bad "place/expr"
+  | "copySourceItemX" | "relaxedX" | "renderX" | "structureX" | "importX" | "probeX" | "celX" => .nopanic
   | _ => .bad "fn"
 
 def render : Out → String
